@@ -151,7 +151,7 @@ _c("C31", "virtual-clock testing of a rejected timed post",
    "never fire, and leave the tracked sources on schedule.", _SCHED)
 
 NOT_APPLICABLE = {}
-_SCHED_PROPS = ["C04", "C05", "C06", "C07", "C08", "C09", "C10", "C11", "C12", "C13", "C17", "C21", "C25",
-                "C27", "C30", "C31"]
+_SCHED_PROPS = ["C04", "C05", "C06", "C07", "C08", "C09", "C10", "C11", "C12", "C13", "C15", "C17", "C20", "C21",
+                "C23", "C25", "C26", "C27", "C30", "C31"]
 for _e in ENGINES:
   _e["serves_properties"] = sorted(CLAIMED) if _e["name"] == "hypothesis-harness" else _SCHED_PROPS
